@@ -7,7 +7,10 @@ def symbols(run, prefix='C07'):
                              bounds='every 32-bit Z; real element table', what='AtomicNumberToSymbol: fresh copy of the symbol for 1..107, NULL + INVALID_ARGUMENT otherwise', object_bits=10),
             lambda: run.cbmc(prefix + '/symbols/sym2z', srcs, 'harness_sym2z', unwind=110, backends=('cadical', 'kissat'), functions=fns, leak=True,
                              bounds='all 107 table entries (enumerated inside the harness) + NULL + every 2-byte string not starting with an upper-case letter',
-                             what='SymbolToAtomicNumber inverts AtomicNumberToSymbol on 1..107 (bijection); NULL / non-symbols rejected with one error', object_bits=10, timeout=400)]
+                             what='SymbolToAtomicNumber inverts AtomicNumberToSymbol on 1..107 (bijection); NULL / non-symbols rejected with one error', object_bits=10, timeout=400),
+            lambda: run.cbmc(prefix + '/symbols/comparators', srcs, 'harness_mendel_cmp', unwind=6, backends=('cadical', 'kissat'), functions=['xrayvars.c:matchMendelElement', 'xrayvars.c:compareMendelElements'], object_bits=10,
+                             bounds='every pair of strings of up to 3 bytes (all byte values); symbols have at most 2',
+                             what='the comparators of the parser\'s symbol lookup (bsearch over the sorted table) realise strcmp on the full symbol: a key matches exactly the entry of that name')]
 
 
 def check(run):
@@ -220,7 +223,30 @@ def scanner(run, prefix='C07'):
 
 
 _check_a = check
+def sorted_table(run):
+    """closed fact (direct): the generated MendelArraySorted is MendelArray sorted strictly ascending by symbol"""
+    import ctypes
+    from vlib import datalemma
+    from vlib.headers import macros
+    H = macros(run); T = datalemma.Tables(run)
+    class ME(ctypes.Structure): _fields_ = [('Zatom', ctypes.c_int), ('name', ctypes.c_char_p)]
+    n = H['MENDEL_MAX']
+    arr = (ME * n).in_dll(T.lib, 'MendelArraySorted')
+    from checks import c15
+    base = c15.mendel_symbols(run)          # Z -> symbol, parsed from xrayglob.c
+    names = [arr[i].name for i in range(n)]
+    bad = []
+    if any(names[i] >= names[i + 1] for i in range(n - 1)): bad.append('not strictly ascending under strcmp')
+    if sorted((sym.encode(), z) for z, sym in base.items()) != [(arr[i].name, arr[i].Zatom) for i in range(n)]: bad.append('not a permutation of MendelArray (symbol, Z)')
+    datalemma.report(run, 'C07/data/sorted-symbols', [('MendelArraySorted (generated from the current sources) is MendelArray strictly ascending by symbol: with strcmp comparators, bsearch finds exactly the entry of the key', not bad, '; '.join(bad), n)],
+                     ['xrayglob.c:MendelArray', 'xrayfiles.c'], 'the table the symbol lookup searches is sorted by the order its comparator implements')
+
+
 def check(run):
     _check_a(run)
     run.parallel(scanner(run) + combine(run))
     check_b(run)
+    sorted_table(run)
+    # "elements without an atomic weight are rejected" rests on AtomicWeight's own contract (value iff the cell is positive): the C01 accessor obligation, under C07
+    from checks import frame
+    frame.sweep(run, 'C07', keep=lambda oid: 'AtomicWeight' in oid, modules=['c01'])
